@@ -31,7 +31,7 @@ fn block_cone(d: &mut Driver, rep: &mut Report, rng: &mut Rng, n: usize) {
 // ------------------------------------------------------------------------------------------- C01
 pub fn c01(ctx: &Ctx) -> Report {
     let base = Report::new("C01", "random writer configurations (block_size 0,1,7,8,9..,4096,>file; restart 1..20; none/snappy; bloom(0..40)/none/custom policy; bytewise/reverse comparator) x sorted entry sets over adversarial alphabets (empty key, shared prefixes, values up to beyond a block) built by the real TableBuilder, opened with unrelated reader options and any cache capacity, scanned to the end and once more after the end; a case is non-trivial when the table has >= 2 entries; distinct = distinct (configuration, entry set)");
-    let n = ncases(ctx, 1500, 30000);
+    let n = ncases(ctx, 6000, 60000);
     parallel(&ctx.driver, ctx.threads, ctx.seed, base, |t, d, rng, rep| {
         if t == 0 {
             block_cone(d, rep, rng, 100);
@@ -71,7 +71,7 @@ pub fn c01(ctx: &Ctx) -> Report {
 // ------------------------------------------------------------------------------------------- C02 / C03 / C19
 fn probe_props(ctx: &Ctx, prop: &str, rule: &str) -> Report {
     let base = Report::new(prop, rule);
-    let n = ncases(ctx, 1200, 25000);
+    let n = ncases(ctx, 4000, 50000);
     let prop = prop.to_string();
     parallel(&ctx.driver, ctx.threads, ctx.seed, base, |t, d, rng, rep| {
         if t == 0 {
@@ -252,7 +252,7 @@ pub fn judge_history(d: &mut Driver, rep: &mut Report, c: &TableCase, s: &Sessio
 }
 pub fn c04(ctx: &Ctx) -> Report {
     let base = Report::new("C04", "tables as in C01 x random call histories (advance, next, prev [always followed by a current query, which resolves the unspecified prev-from-invalid], reset, seek_to_first, seek(t) for t in the C02 target set, valid/current/current_key) of length 40 (quick) / 120 (thorough), plus (thorough) every history of length <= 5 over {advance, prev, reset, seek(t)} on every table over subsets of a 4-key universe with 3 layouts; judged by replaying the observations on the Spec cursor; iterator state fingerprints are compared with the model after every call; non-trivial = history containing prev or seek on a table with >= 2 entries");
-    let n = ncases(ctx, 1500, 20000);
+    let n = ncases(ctx, 5000, 40000);
     let hist_len = if ctx.thorough() { 120 } else { 40 };
     let mut rep = parallel(&ctx.driver, ctx.threads, ctx.seed, base, |t, d, rng, rep| {
         if t == 0 {
@@ -333,7 +333,7 @@ pub fn c04(ctx: &Ctx) -> Report {
 // ------------------------------------------------------------------------------------------- C05
 pub fn c05(ctx: &Ctx) -> Report {
     let base = Report::new("C05", "every file produced by the real TableBuilder for random configurations and entry sets (as in C01) is one program for translation validation: the independent Lean decoder must accept it, decode exactly the entries added, find non-empty blocks, bracketing index keys, the filter's metaindex entry, and every key must pass the independently computed bloom filter of its block; the produced bytes are also compared with the model writer's bytes (S9); non-trivial = >= 2 entries");
-    let n = ncases(ctx, 2500, 40000);
+    let n = ncases(ctx, 8000, 80000);
     parallel(&ctx.driver, ctx.threads, ctx.seed, base, |t, d, rng, rep| {
         if t == 0 {
             block_cone(d, rep, rng, 80);
